@@ -122,25 +122,80 @@ def mid(a, b):
     return ("bin", "Div", ("bin", "Add", a, b), mk_int(2))
 
 
+_EXP = {}
+
+
+def _expansion(body):
+    """virtual argument positions of a function: (argument index, field or None).  A by-value parameter whose type is a
+    struct of the crate made of usize fields only (`node: Node { index, lo, hi }`) stands for one position per field, so
+    that the rules read `(i, vl, vr)` off it as if they were passed one by one"""
+    if body.key in _EXP:
+        return _EXP[body.key]
+    crate = body.crate
+    out = []
+    for p_ in range(body.arg_count):
+        ty = str(body.locals[p_ + 1]["ty"])
+        adt = next((a for a in crate.adts if a.get("kind") == "Struct" and a["path"] == ty), None)
+        flds = util.fields_of(adt) if adt is not None else []
+        if adt is not None and flds and all(str(f["ty"]) == "usize" for f in flds):
+            out += [(p_, k_) for k_ in range(len(flds))]
+        else:
+            out.append((p_, None))
+    _EXP[body.key] = out
+    return out
+
+
+def VN(body):
+    return len(_expansion(body))
+
+
+def VTY(body, k):
+    p_, f_ = _expansion(body)[k]
+    return "usize" if f_ is not None else str(body.locals[p_ + 1]["ty"])
+
+
+def VA(body, ev):
+    """the arguments of a call of `body`, one entry per virtual position"""
+    from ..absint import mk_proj
+    out = []
+    for p_, f_ in _expansion(body):
+        a = ev.args[p_] if p_ < len(ev.args) else None
+        out.append(a if f_ is None or a is None else mk_proj(a, f_))
+    return out
+
+
+def VP(I, body, k):
+    """the parameter (or the field of a struct parameter) at virtual position k, as a term"""
+    from ..absint import mk_proj
+    p_, f_ = _expansion(body)[k]
+    base = P(I, p_ + 1)
+    return base if f_ is None else mk_proj(base, f_)
+
+
 def infer_positions(I, body):
-    """(node position, vl position, vr position) of a self-recursive descent/build function"""
+    """(node position, vl position, vr position) of a self-recursive descent/build function (virtual positions, see VA)"""
     node = vl = vr = None
     for st in I.final_states:
         for ev in st.event_list():
             if not is_call_to(ev, body):
                 continue
-            for p in range(1, len(ev.args)):
-                a = ev.args[p]
-                Pp = P(I, p + 1)
+            va = VA(body, ev)
+            for p in range(1, len(va)):
+                a = va[p]
+                if a is None or VTY(body, p) != "usize":
+                    continue
+                Pp = VP(I, body, p)
                 if util.lin_equal(a, ("bin", "Add", ("bin", "Mul", Pp, mk_int(2)), mk_int(1))) or util.lin_equal(a, ("bin", "Add", ("bin", "Mul", Pp, mk_int(2)), mk_int(2))):
                     node = p
             if node is None:
                 continue
-            for a_ in range(1, len(ev.args)):
-                for b_ in range(a_ + 1, len(ev.args)):
-                    Pa, Pb = P(I, a_ + 1), P(I, b_ + 1)
+            for a_ in range(1, len(va)):
+                for b_ in range(a_ + 1, len(va)):
+                    if va[a_] is None or va[b_] is None:
+                        continue
+                    Pa, Pb = VP(I, body, a_), VP(I, body, b_)
                     m = mid(Pa, Pb)
-                    if _mid_equal(ev.args[b_], Pa, Pb) and ev.args[a_] == Pa and util.lin_equal(ev.args[node], ("bin", "Add", ("bin", "Mul", P(I, node + 1), mk_int(2)), mk_int(1))):
+                    if _mid_equal(va[b_], Pa, Pb) and va[a_] == Pa and util.lin_equal(va[node], ("bin", "Add", ("bin", "Mul", VP(I, body, node), mk_int(2)), mk_int(1))):
                         vl, vr = a_, b_
     return node, vl, vr
 
@@ -236,7 +291,7 @@ def rule_push_before_descend(col, R, rid, names, sfx=""):
         node, vl, vr = infer_positions(I, b)
         if node is None:
             raise Anchor("cannot infer the node parameter of %s" % b.path)
-        Pi = P(I, node + 1)
+        Pi = VP(I, b, node)
         ncalls = 0
         for st in I.final_states:
             evs = st.event_list()
@@ -245,11 +300,11 @@ def rule_push_before_descend(col, R, rid, names, sfx=""):
                     continue
                 ncalls += 1
                 pushed = any(is_call_to(e, R.fn["push_at"]) and e.args[1] == Pi for e in evs[:k])
-                key = "%s|recursive-call|node=%s" % (fk(b), tstr(ev.args[node]))
+                key = "%s|recursive-call|node=%s" % (fk(b), tstr(VA(b, ev)[node]))
                 if pushed:
                     col.ok(rid + sfx, b.loc(ev.bb), key, "push_at(i) precedes the descent")
                 else:
-                    col.violation(rid + sfx, "%s|descent-without-push" % fk(b), b.loc(ev.bb), "%s descends into child %s on a path without pushing the node's pending modifier first: the child does not see it and the fold is wrong for lazy items" % (b.path, tstr(ev.args[node])), {"path": st.path_list()})
+                    col.violation(rid + sfx, "%s|descent-without-push" % fk(b), b.loc(ev.bb), "%s descends into child %s on a path without pushing the node's pending modifier first: the child does not see it and the fold is wrong for lazy items" % (b.path, tstr(VA(b, ev)[node])), {"path": st.path_list()})
         if ncalls == 0:
             col.violation(rid + sfx, "%s|no-recursion" % fk(b), b.loc(), "%s has no recursive call" % b.path)
 
@@ -263,13 +318,14 @@ def rule_geometry(col, R, rid, names, sfx=""):
         node, vl, vr = infer_positions(I, b)
         if None in (node, vl, vr):
             raise Anchor("cannot infer node/bounds parameters of %s" % b.path)
-        Pi, Pvl, Pvr = P(I, node + 1), P(I, vl + 1), P(I, vr + 1)
+        Pi, Pvl, Pvr = VP(I, b, node), VP(I, b, vl), VP(I, b, vr)
         seen = set()
         for st in I.final_states:
             for ev in st.event_list():
                 if not is_call_to(ev, b):
                     continue
-                a_i, a_l, a_r = ev.args[node], ev.args[vl], ev.args[vr]
+                va_ = VA(b, ev)
+                a_i, a_l, a_r = va_[node], va_[vl], va_[vr]
                 k = (ev.bb, a_i, a_l, a_r)
                 if k in seen:
                     continue
@@ -296,7 +352,7 @@ def rule_helpers_geometry(col, R, rid, sfx="", only=None):
         b = R.fn[nm]
         I = analyse(b)
         node = 1 if nm != "rebuild_empty" else infer_positions(I, b)[0]
-        Pi = P(I, node + 1)
+        Pi = VP(I, b, node)
         found = False
         for st in I.final_states:
             for ev in st.event_list():
@@ -346,7 +402,7 @@ def check(col, prog, tier, profile, fixture=None):
         b = R.fn[nm]
         I = analyse(b)
         node = infer_positions(I, b)[0]
-        Pi = P(I, node + 1)
+        Pi = VP(I, b, node)
         for st in I.final_states:
             evs = st.event_list()
             recs = [k for k, e in enumerate(evs) if is_call_to(e, b)]
@@ -370,7 +426,7 @@ def check(col, prog, tier, profile, fixture=None):
     b = R.fn["ask_internal"]
     I = analyse(b)
     node = infer_positions(I, b)[0]
-    Pi = P(I, node + 1)
+    Pi = VP(I, b, node)
     nm5 = 0
     for st in I.final_states:
         evs = st.event_list()
@@ -380,8 +436,10 @@ def check(col, prog, tier, profile, fixture=None):
                 vals = ev.extra["argvals"]
                 ok = False
                 if vals[0] is not None and vals[1] is not None and vals[0][0] == "call" and vals[1][0] == "call":
-                    n0 = vals[0][2][node]
-                    n1 = vals[1][2][node]
+                    from ..absint import mk_proj as _mp
+                    p5_, f5_ = _expansion(b)[node]
+                    n0 = vals[0][2][p5_] if f5_ is None else _mp(vals[0][2][p5_], f5_)
+                    n1 = vals[1][2][p5_] if f5_ is None else _mp(vals[1][2][p5_], f5_)
                     ok = util.lin_equal(n0, ("bin", "Add", ("bin", "Mul", Pi, mk_int(2)), mk_int(1))) and util.lin_equal(n1, ("bin", "Add", ("bin", "Mul", Pi, mk_int(2)), mk_int(2)))
                 key = "%s|merge-operands" % fk(b)
                 if ok:
@@ -395,12 +453,12 @@ def check(col, prog, tier, profile, fixture=None):
     b = R.fn["rebuild"]
     I = analyse(b)
     node, vl, vr = infer_positions(I, b)
-    Pi = P(I, node + 1)
+    Pi = VP(I, b, node)
     for st in I.final_states:
         evs = st.event_list()
         recs = [e for e in evs if is_call_to(e, b)]
         if recs:
-            ok = len(recs) == 2 and util.lin_equal(recs[0].args[node], ("bin", "Add", ("bin", "Mul", Pi, mk_int(2)), mk_int(1))) and util.lin_equal(recs[1].args[node], ("bin", "Add", ("bin", "Mul", Pi, mk_int(2)), mk_int(2)))
+            ok = len(recs) == 2 and util.lin_equal(VA(b, recs[0])[node], ("bin", "Add", ("bin", "Mul", Pi, mk_int(2)), mk_int(1))) and util.lin_equal(VA(b, recs[1])[node], ("bin", "Add", ("bin", "Mul", Pi, mk_int(2)), mk_int(2)))
             if ok:
                 col.ok("R6" + sfx, b.loc(recs[0].bb), "%s|left-before-right" % fk(b), "the left subtree consumes the iterator first")
             else:
@@ -423,11 +481,14 @@ def check(col, prog, tier, profile, fixture=None):
             ok = len(raw) == 1 and len(bl) == 1 and evs.index(raw[0]) < evs.index(bl[0])
             if ok:
                 e = bl[0]
+                bva = VA(R.fn[builder], e)
+                bn, bvl, bvr = infer_positions(analyse(R.fn[builder]), R.fn[builder])
+                a_i, a_l, a_r = bva[bn], bva[bvl], bva[bvr]
                 nfield = None
-                for s in subterms(e.args[3]):
+                for s in subterms(a_r):
                     if s[0] == "proj" and s[1] == R.N or (s[0] == "load" and s[2][0] == "field" and s[2][2] == R.N):
                         nfield = s
-                ok = e.args[1] == mk_int(0) and e.args[2] == mk_int(0) and nfield is not None and util.lin_equal(e.args[3], ("bin", "Sub", nfield, mk_int(1)))
+                ok = a_i == mk_int(0) and a_l == mk_int(0) and nfield is not None and util.lin_equal(a_r, ("bin", "Sub", nfield, mk_int(1)))
             key = "%s|builds-root" % fk(b)
             if ok:
                 col.ok("R6" + sfx, b.loc(), key, "new_raw(..) then %s(0, 0, n-1)" % builder)
@@ -456,9 +517,9 @@ def rule_routing(col, R, rid, sfx, only=None):
         b = R.fn[nm]
         I = analyse(b)
         node, vl, vr = infer_positions(I, b)
-        Pvl, Pvr = P(I, vl + 1), P(I, vr + 1)
+        Pvl, Pvr = VP(I, b, vl), VP(I, b, vr)
         # query parameters: the remaining usize parameters, in order
-        q = [p for p in range(1, b.arg_count) if p not in (node, vl, vr) and b.locals[p + 1]["ty"] == "usize"]
+        q = [p for p in range(1, VN(b)) if p not in (node, vl, vr) and VTY(b, p) == "usize"]
         if fam == "point":
             if len(q) != 1:
                 raise Anchor("%s: expected one index parameter" % b.path)
@@ -467,6 +528,9 @@ def rule_routing(col, R, rid, sfx, only=None):
         for p in range(1, b.arg_count + 1):
             if b.locals[p]["ty"] == "usize":
                 I.tys[P(I, p)] = "usize"
+        for p in range(1, VN(b)):
+            if VTY(b, p) == "usize":
+                I.tys[VP(I, b, p)] = "usize"
 
         def inv_facts(l, r, a, c):
             if fam == "point":
@@ -478,8 +542,8 @@ def rule_routing(col, R, rid, sfx, only=None):
                 fs.append(("Eq", l, a))
             return fs
 
-        Pl = P(I, q[0] + 1)
-        Pr = P(I, q[1] + 1) if fam != "point" else Pl
+        Pl = VP(I, b, q[0])
+        Pr = VP(I, b, q[1]) if fam != "point" else Pl
         entry = inv_facts(Pl, Pr, Pvl, Pvr)
         seen = set()
         for st in I.final_states:
@@ -494,14 +558,15 @@ def rule_routing(col, R, rid, sfx, only=None):
                     facts.add(("eq", ("bin", op, x, y), 1))
                 nf = frozenset((f[0], norm_mid(f[1], Pvl, Pvr), f[2]) if f[0] != "imp" else f for f in facts)
                 z = zones.zone_of(nf, I.tys)
-                al = norm_mid(ev.args[q[0]], Pvl, Pvr)
-                ar = norm_mid(ev.args[q[1]], Pvl, Pvr) if fam != "point" else al
-                avl, avr = norm_mid(ev.args[vl], Pvl, Pvr), norm_mid(ev.args[vr], Pvl, Pvr)
+                va_ = VA(b, ev)
+                al = norm_mid(va_[q[0]], Pvl, Pvr)
+                ar = norm_mid(va_[q[1]], Pvl, Pvr) if fam != "point" else al
+                avl, avr = norm_mid(va_[vl], Pvl, Pvr), norm_mid(va_[vr], Pvl, Pvr)
                 ranges.append((al, ar, z))
                 goal = inv_facts(al, ar, avl, avr)
                 bad = [(op, x, y) for (op, x, y) in goal if not z.entails(op, x, y)]
                 k = (ev.bb, ev.args, frozenset(f for f in ev.state[0] if f[0] != "imp"))
-                key = "%s|containment|%s" % (fk(b), tstr(ev.args[node]))
+                key = "%s|containment|%s" % (fk(b), tstr(va_[node]))
                 if k in seen:
                     continue
                 seen.add(k)
@@ -561,26 +626,37 @@ def rule_routing(col, R, rid, sfx, only=None):
         I = analyse(b)
         It = analyse(tgt)
         node, vl, vr = infer_positions(It, tgt)
-        q = [p for p in range(1, tgt.arg_count) if p not in (node, vl, vr) and tgt.locals[p + 1]["ty"] == "usize"]
+        q = [p for p in range(1, VN(tgt)) if p not in (node, vl, vr) and VTY(tgt, p) == "usize"]
         for st in I.final_states:
             for ev in st.event_list():
                 if not is_call_to(ev, tgt):
                     continue
                 z = zones.zone_of(ev.state[0], I.tys)
+                vt_ = VA(tgt, ev)
                 n = None
-                for s in subterms(ev.args[vr]):
+                for s in [vt_[vr]] + list(subterms(vt_[vr])):
                     if s[0] == "load" and s[2][0] == "field" and s[2][2] == R.N:
                         n = s
-                ok = ev.args[node] == mk_int(0) and ev.args[vl] == mk_int(0) and n is not None and util.lin_equal(ev.args[vr], ("bin", "Sub", n, mk_int(1)))
-                l = ev.args[q[0]]
-                r = ev.args[q[1]] if fam != "point" else l
+                ok = vt_[node] == mk_int(0) and vt_[vl] == mk_int(0) and n is not None and util.lin_equal(vt_[vr], ("bin", "Sub", n, mk_int(1)))
+                l = vt_[q[0]]
+                r = vt_[q[1]] if fam != "point" else l
                 I.tys[l] = "usize"
                 if fam == "fwd":
-                    ok = ok and r == ev.args[vr]
+                    ok = ok and r == vt_[vr]
                 elif fam == "rev":
                     ok = ok and l == mk_int(0)
                 if fam in ("range", "point"):
-                    ok = ok and z.entails("Le", l, r) and z.entails("Le", r, ev.args[vr])
+                    ok = ok and z.entails("Le", l, r) and z.entails("Le", r, vt_[vr])
+                # the query handed to the descent is the caller's own: the entry's index parameters, in order
+                # (`lower_bound_internal(.., 0, n-1, ..)` searches from the wrong end and no test starts elsewhere)
+                own = [P(I, p_ + 1) for p_ in range(1, b.arg_count) if str(b.locals[p_ + 1]["ty"]) == "usize"]
+                passed = {"range": [l, r], "point": [l], "fwd": [l], "rev": [r]}[fam]
+                key = "%s|query-is-the-callers" % fk(b)
+                if len(own) == len(passed):
+                    if own == passed:
+                        col.ok(rid + sfx, b.loc(ev.bb), key, "the descent is asked about %s" % ", ".join(tstr(x) for x in own))
+                    else:
+                        col.violation(rid + sfx, key, b.loc(ev.bb), "%s starts the descent on (%s) instead of its own argument(s) (%s)" % (b.path, ", ".join(tstr(x) for x in passed), ", ".join(tstr(x) for x in own)))
                 key = "%s|root-entry" % fk(b)
                 if ok:
                     col.ok(rid + sfx, b.loc(ev.bb), key, "root call (0, 0, n-1) with the invariant established by the asserts")
